@@ -414,6 +414,7 @@ func genCase(t *rapid.T) Case {
 	if rapid.IntRange(0, 3).Draw(t, "junk") == 0 {
 		c.Junk = rapid.IntRange(1, 1000).Draw(t, "junkMax")
 	}
+	c.LooseEOL = c.Seed != 0 && rapid.Bool().Draw(t, "looseEOL")
 	normalise(&c, offByOneOpen())
 	return c
 }
